@@ -370,16 +370,6 @@ theorem map_val_injective {a b : List Nat} (h : a.map KeyElem.val = b.map KeyEle
       simp only [List.map_cons, List.cons.injEq, KeyElem.val.injEq] at h
       rw [h.1, ih h.2]
 
-theorem alruKey_agrees (s : Sig) (c : Call) (h : alruCallOK s c = true) :
-    alruKey .default s c = alruRefKey .default s c := by
-  cases hb : alruBind s c with
-  | some b =>
-    simp only [alruRefKey, hb, Option.map_some]
-    exact getArgsTuple_of_bind _ _ _ c b hb
-  | none =>
-    simp only [alruCallOK, hb, Option.isSome_none, Bool.false_or, Option.isNone_iff_eq_none] at h
-    simp [alruRefKey, hb, h]
-
 namespace Alru
 
 theorem finalState_append (mk : Call → Option Key) (bd : Call → Option (List Nat)) (st : St) (a b : List Op) :
@@ -545,15 +535,23 @@ theorem ensure_keys (l : IMap) (i : Nat) :
   rw [lookup_isSome_eq_contains]
   split <;> simp
 
+/-- `pin`/`zomb`: no cached value refers to its instance, so no entry has outlived its instance -/
 structure Rel (w : Watch) (st : St) : Prop where
   ref : ∀ i k, w.ref i k = (cacheOf st i).lookup k
   live : w.live = st.insts.map (·.1)
   runs : w.runs = st.runs
+  pin : st.pinned = []
+  zomb : st.zombies = 0
 
-theorem rel_init : Rel watchInit init := ⟨fun _ _ => rfl, rfl, rfl⟩
+theorem rel_init : Rel watchInit init := ⟨fun _ _ => rfl, rfl, rfl, rfl, rfl⟩
 
-theorem step_call_eq (mk : Call → Option Key) (bd : Call → Option (List Nat)) (st : St) (i : Nat) (c : Call) (raises : Bool) :
-    step mk bd st (.call i c raises) =
+/-- `pinned` after a store -/
+def pinAfter (st : St) (i : Nat) (sr : Bool) : List Nat :=
+  if sr && !st.pinned.contains i then i :: st.pinned else st.pinned
+
+theorem step_call_eq (mk : Call → Option Key) (bd : Call → Option (List Nat)) (st : St) (i : Nat) (c : Call)
+    (raises sr : Bool) :
+    step mk bd st (.call i c raises sr) =
       (let st1 : St := { st with insts := ensure st.insts i }
        match mk c with
        | none => (st1, .raisedType)
@@ -565,16 +563,23 @@ theorem step_call_eq (mk : Call → Option Key) (bd : Call → Option (List Nat)
            | none => (st1, .raisedType)
            | some b =>
              if raises then ({ st1 with runs := st.runs + 1 }, .raisedUser (st.runs + 1))
-             else ({ insts := store (ensure st.insts i) i k ⟨st.runs + 1, b⟩, runs := st.runs + 1 }, .ok ⟨st.runs + 1, b⟩)) := by
-  simp only [step, ensure, cacheOf]
+             else ({ st with insts := store (ensure st.insts i) i k ⟨st.runs + 1, b⟩, pinned := pinAfter st i sr,
+                             runs := st.runs + 1 }, .ok ⟨st.runs + 1, b⟩)) := by
+  simp only [step, ensure, cacheOf, pinAfter]
   have := ensure_getD st.insts i i
   simp only [ensure] at this
   rw [this]
   rfl
 
+theorem step_drop_eq (mk : Call → Option Key) (bd : Call → Option (List Nat)) (st : St) (i : Nat)
+    (h : st.pinned.contains i = false) :
+    step mk bd st (.drop i) = ({ st with insts := st.insts.filter fun p => p.1 != i }, .unit) := by
+  have hn : ¬ i ∈ st.pinned := by simpa using h
+  simp [step, hn]
+
 theorem rel_ensure {w : Watch} {st : St} (h : Rel w st) (i : Nat) :
     Rel { w with live := if w.live.contains i then w.live else w.live ++ [i] } { st with insts := ensure st.insts i } := by
-  refine ⟨fun j k => ?_, ?_, h.runs⟩
+  refine ⟨fun j k => ?_, ?_, h.runs, h.pin, h.zomb⟩
   · simp only [cacheOf, ensure_getD]; exact h.ref j k
   · simp only [ensure_keys, h.live]
 
@@ -585,83 +590,88 @@ theorem ensure_length {w : Watch} {st : St} (h : Rel w st) (i : Nat) :
   rw [this, h.live]
 
 section steps
-variable {mk : Call → Option Key} {bd : Call → Option (List Nat)} {st : St} {i : Nat} {c : Call} {raises : Bool}
+variable {mk : Call → Option Key} {bd : Call → Option (List Nat)} {st : St} {i : Nat} {c : Call} {raises sr : Bool}
 
 theorem step_key_error (h : mk c = none) :
-    step mk bd st (.call i c raises) = ({ st with insts := ensure st.insts i }, .raisedType) := by
+    step mk bd st (.call i c raises sr) = ({ st with insts := ensure st.insts i }, .raisedType) := by
   rw [step_call_eq]; simp [h]
 
 theorem step_hit {k : Key} {v : Val} (h : mk c = some k) (hl : (cacheOf st i).lookup k = some v) :
-    step mk bd st (.call i c raises) = ({ st with insts := ensure st.insts i }, .ok v) := by
+    step mk bd st (.call i c raises sr) = ({ st with insts := ensure st.insts i }, .ok v) := by
   rw [step_call_eq]; simp [h, hl]
 
 theorem step_bind_error {k : Key} (h : mk c = some k) (hl : (cacheOf st i).lookup k = none) (hb : bd c = none) :
-    step mk bd st (.call i c raises) = ({ st with insts := ensure st.insts i }, .raisedType) := by
+    step mk bd st (.call i c raises sr) = ({ st with insts := ensure st.insts i }, .raisedType) := by
   rw [step_call_eq]; simp [h, hl, hb]
 
 theorem step_raise {k : Key} {b : List Nat} (h : mk c = some k) (hl : (cacheOf st i).lookup k = none) (hb : bd c = some b) :
-    step mk bd st (.call i c true) =
-      ({ insts := ensure st.insts i, runs := st.runs + 1 }, .raisedUser (st.runs + 1)) := by
+    step mk bd st (.call i c true sr) =
+      ({ st with insts := ensure st.insts i, runs := st.runs + 1 }, .raisedUser (st.runs + 1)) := by
   rw [step_call_eq]; simp [h, hl, hb]
 
 theorem step_store {k : Key} {b : List Nat} (h : mk c = some k) (hl : (cacheOf st i).lookup k = none) (hb : bd c = some b) :
-    step mk bd st (.call i c false) =
-      ({ insts := store (ensure st.insts i) i k ⟨st.runs + 1, b⟩, runs := st.runs + 1 }, .ok ⟨st.runs + 1, b⟩) := by
+    step mk bd st (.call i c false sr) =
+      ({ st with insts := store (ensure st.insts i) i k ⟨st.runs + 1, b⟩, pinned := pinAfter st i sr,
+                 runs := st.runs + 1 }, .ok ⟨st.runs + 1, b⟩) := by
   rw [step_call_eq]; simp [h, hl, hb]
 
 end steps
 
 theorem rel_step (mk rk : Call → Option Key) (bd : Call → Option (List Nat)) (w : Watch) (st : St) (op : Op)
-    (h : Rel w st) (hk : ∀ i c r, op = .call i c r → mk c = rk c) :
+    (h : Rel w st) (hk : ∀ i c r sr, op = .call i c r sr → mk c = rk c ∧ sr = false) :
     ∃ w', watchStep rk bd w op (observe mk bd st op).2 = .ok w' ∧ Rel w' (observe mk bd st op).1 := by
   cases op with
   | drop i =>
+    have hnp : st.pinned.contains i = false := by rw [h.pin]; rfl
     refine ⟨{ ref := fun j => if j == i then fun _ => none else w.ref j, live := w.live.filter (· != i), runs := w.runs }, ?_, ?_⟩
-    · simp [watchStep, observe, step, h.runs, h.live, ← map_fst_filter]
-    · refine ⟨fun j k => ?_, ?_, h.runs⟩
-      · simp only [observe, step, cacheOf, lookup_filter_ne]
+    · simp [watchStep, observe, step_drop_eq mk bd st i hnp, h.runs, h.live, h.zomb, ← map_fst_filter]
+    · simp only [observe, step_drop_eq mk bd st i hnp]
+      refine ⟨fun j k => ?_, ?_, h.runs, h.pin, h.zomb⟩
+      · simp only [cacheOf, lookup_filter_ne]
         by_cases hj : j = i
         · simp [hj]
         · have := h.ref j k
           simp [hj, this, cacheOf]
-      · simp [observe, step, h.live, map_fst_filter]
-  | call i c raises =>
-    have hkc := hk i c raises rfl
+      · simp [h.live, map_fst_filter]
+  | call i c raises sr =>
+    obtain ⟨hkc, hsr⟩ := hk i c raises sr rfl
+    subst hsr
     clear hk
     have hlen := ensure_length h i
     have hre := rel_ensure h i
     have hr := h.runs
+    have hz := h.zomb
     cases hmk : mk c with
     | none =>
       refine ⟨{ w with live := if w.live.contains i then w.live else w.live ++ [i] }, ?_, ?_⟩
-      · simp [observe, step_key_error hmk, watchStep, ← hkc, hmk, hlen, hr]
+      · simp [observe, step_key_error hmk, watchStep, ← hkc, hmk, hlen, hr, hz]
       · simpa [observe, step_key_error hmk] using hre
     | some k =>
       have href := h.ref i k
       cases hl : (cacheOf st i).lookup k with
       | some v =>
         refine ⟨{ w with live := if w.live.contains i then w.live else w.live ++ [i] }, ?_, ?_⟩
-        · simp [observe, step_hit hmk hl, watchStep, ← hkc, hmk, hlen, hr, href, hl]
+        · simp [observe, step_hit hmk hl, watchStep, ← hkc, hmk, hlen, hr, href, hl, hz]
         · simpa [observe, step_hit hmk hl] using hre
       | none =>
         cases hb : bd c with
         | none =>
           refine ⟨{ w with live := if w.live.contains i then w.live else w.live ++ [i] }, ?_, ?_⟩
-          · simp [observe, step_bind_error hmk hl hb, watchStep, ← hkc, hmk, hlen, hr, href, hl, hb]
+          · simp [observe, step_bind_error hmk hl hb, watchStep, ← hkc, hmk, hlen, hr, href, hl, hb, hz]
           · simpa [observe, step_bind_error hmk hl hb] using hre
         | some b =>
           cases raises with
           | true =>
             refine ⟨{ w with live := if w.live.contains i then w.live else w.live ++ [i], runs := w.runs + 1 }, ?_, ?_⟩
-            · simp [observe, step_raise hmk hl hb, watchStep, ← hkc, hmk, hlen, hr, href, hl, hb]
+            · simp [observe, step_raise hmk hl hb, watchStep, ← hkc, hmk, hlen, hr, href, hl, hb, hz]
             · simp only [observe, step_raise hmk hl hb]
-              exact ⟨hre.ref, hre.live, by simp [hr]⟩
+              exact ⟨hre.ref, hre.live, by simp [hr], h.pin, h.zomb⟩
           | false =>
             refine ⟨{ ref := fun j k' => if j == i && k' == k then some ⟨w.runs + 1, b⟩ else w.ref j k',
                       live := if w.live.contains i then w.live else w.live ++ [i], runs := w.runs + 1 }, ?_, ?_⟩
-            · simp [observe, step_store hmk hl hb, watchStep, ← hkc, hmk, hlen, hr, href, hl, hb, store, List.length_map]
+            · simp [observe, step_store hmk hl hb, watchStep, ← hkc, hmk, hlen, hr, href, hl, hb, store, List.length_map, hz]
             · simp only [observe, step_store hmk hl hb]
-              refine ⟨fun j k' => ?_, ?_, by simp [hr]⟩
+              refine ⟨fun j k' => ?_, ?_, by simp [hr], by simp [pinAfter, h.pin], h.zomb⟩
               · simp only [cacheOf, lookup_store]
                 by_cases hj : j = i
                 · subst hj
@@ -678,16 +688,6 @@ theorem rel_step (mk rk : Call → Option Key) (bd : Call → Option (List Nat))
                   simpa [cacheOf] using this
               · simp only [map_fst_store]
                 exact hre.live
-
-theorem watchRun_ok (mk rk : Call → Option Key) (bd : Call → Option (List Nat))
-    (ops : List Op) (w : Watch) (st : St) (h : Rel w st) (hk : ∀ i c r, Op.call i c r ∈ ops → mk c = rk c) :
-    ∃ w', watchRun rk bd w ops (run mk bd st ops) = .ok w' := by
-  induction ops generalizing w st with
-  | nil => exact ⟨w, rfl⟩
-  | cons op ops ih =>
-    obtain ⟨w', h1, h2⟩ := rel_step mk rk bd w st op h (fun i c r e => hk i c r (e ▸ List.mem_cons_self))
-    simp only [run, watchRun, h1]
-    exact ih _ _ h2 (fun i c r ho => hk i c r (List.mem_cons_of_mem _ ho))
 
 end PerInst
 
@@ -744,36 +744,39 @@ def GoodInv (st : St) : Prop := ∀ i k v, (cacheOf st i).lookup k = some v → 
 theorem good_init : GoodInv init := by intro i k v h; simp [cacheOf, init] at h
 
 theorem good_step (mk : Call → Option Key) (bd : Call → Option (List Nat)) (st : St) (op : Op)
-    (hg : ∀ i c r, op = .call i c r → ∀ k b, mk c = some k → bd c = some b → hasPair k = false)
+    (hg : ∀ i c r sr, op = .call i c r sr → ∀ k b, mk c = some k → bd c = some b → hasPair k = false)
     (h : GoodInv st) : GoodInv (step mk bd st op).1 := by
   cases op with
   | drop i =>
     intro j k v hl
-    simp only [step, cacheOf, lookup_filter_ne] at hl
+    have hc : cacheOf (step mk bd st (.drop i)).1 j = if j = i then [] else cacheOf st j := by
+      simp only [step]
+      split <;> simp only [cacheOf, lookup_filter_ne] <;> by_cases hj : j = i <;> simp [hj]
+    rw [hc] at hl
     by_cases hj : j = i
     · simp [hj] at hl
     · simp only [hj, if_false] at hl
       exact h j k v hl
-  | call i c r =>
-    have he : ∀ n, GoodInv { insts := ensure st.insts i, runs := n } := by
-      intro n j k v hl
-      simp only [cacheOf, ensure_getD] at hl
+  | call i c r sr =>
+    have he : ∀ st' : St, st'.insts = ensure st.insts i → GoodInv st' := by
+      intro st' hs j k v hl
+      simp only [cacheOf, hs, ensure_getD] at hl
       exact h j k v hl
     rw [step_call_eq]
     simp only []
     cases hmk : mk c with
-    | none => exact he _
+    | none => exact he _ rfl
     | some k =>
       simp only []
       cases (cacheOf st i).lookup k with
-      | some v => exact he _
+      | some v => exact he _ rfl
       | none =>
         simp only []
         cases hb : bd c with
-        | none => exact he _
+        | none => exact he _ rfl
         | some b =>
           cases r with
-          | true => exact he _
+          | true => exact he _ rfl
           | false =>
             intro j k' v hl
             simp only [cacheOf, lookup_store, Bool.false_eq_true, if_false] at hl
@@ -781,7 +784,7 @@ theorem good_step (mk : Call → Option Key) (bd : Call → Option (List Nat)) (
             · subst hj
               simp only [ensure_self, if_true, Option.map_some, Option.getD_some] at hl
               by_cases hkk : k' = k
-              · subst hkk; exact hg j c false rfl k' b hmk hb
+              · subst hkk; exact hg j c false sr rfl k' b hmk hb
               · have : (k' == k) = false := by simpa using hkk
                 simp only [List.lookup, this] at hl
                 exact h j k' v hl
@@ -790,10 +793,10 @@ theorem good_step (mk : Call → Option Key) (bd : Call → Option (List Nat)) (
 
 /-- a call Python cannot bind whose key carries a pair misses every cache and raises TypeError -/
 theorem rel_step_bad (mk rk : Call → Option Key) (bd : Call → Option (List Nat)) (w : Watch) (st : St)
-    (i : Nat) (c : Call) (r : Bool) (k : Key) (h : Rel w st) (hgood : GoodInv st)
+    (i : Nat) (c : Call) (r sr : Bool) (k : Key) (h : Rel w st) (hgood : GoodInv st)
     (hrk : rk c = none) (hbd : bd c = none) (hmk : mk c = some k) (hp : hasPair k = true) :
-    ∃ w', watchStep rk bd w (.call i c r) (observe mk bd st (.call i c r)).2 = .ok w' ∧
-      Rel w' (observe mk bd st (.call i c r)).1 := by
+    ∃ w', watchStep rk bd w (.call i c r sr) (observe mk bd st (.call i c r sr)).2 = .ok w' ∧
+      Rel w' (observe mk bd st (.call i c r sr)).1 := by
   have hl : (cacheOf st i).lookup k = none := by
     cases hl : (cacheOf st i).lookup k with
     | none => rfl
@@ -801,8 +804,10 @@ theorem rel_step_bad (mk rk : Call → Option Key) (bd : Call → Option (List N
   have hlen := ensure_length h i
   have hre := rel_ensure h i
   refine ⟨{ w with live := if w.live.contains i then w.live else w.live ++ [i] }, ?_, ?_⟩
-  · simp [observe, step_bind_error hmk hl hbd, watchStep, hrk, hlen, h.runs]
+  · simp [observe, step_bind_error hmk hl hbd, watchStep, hrk, hlen, h.runs, h.zomb]
   · simpa [observe, step_bind_error hmk hl hbd] using hre
+
+end PerInst
 
 /-- what a call may be for the refinement: the key as written equals the reference key (every valid call; a call
     whose key construction raises), or it cannot be bound and its key carries a leftover keyword -/
@@ -810,35 +815,38 @@ def Agree (mk rk : Call → Option Key) (bd : Call → Option (List Nat)) (c : C
   (mk c = rk c ∧ ∀ k b, mk c = some k → bd c = some b → hasPair k = false) ∨
     (rk c = none ∧ bd c = none ∧ ∃ k, mk c = some k ∧ hasPair k = true)
 
+namespace PerInst
+
 theorem watchRun_ok' (mk rk : Call → Option Key) (bd : Call → Option (List Nat))
     (ops : List Op) (w : Watch) (st : St) (h : Rel w st) (hgood : GoodInv st)
-    (hk : ∀ i c r, Op.call i c r ∈ ops → Agree mk rk bd c) :
+    (hk : ∀ i c r sr, Op.call i c r sr ∈ ops → Agree mk rk bd c ∧ sr = false) :
     ∃ w', watchRun rk bd w ops (run mk bd st ops) = .ok w' := by
   induction ops generalizing w st with
   | nil => exact ⟨w, rfl⟩
   | cons op ops ih =>
     have hstep : ∃ w', watchStep rk bd w op (observe mk bd st op).2 = .ok w' ∧ Rel w' (observe mk bd st op).1 := by
       cases op with
-      | drop i => exact rel_step mk rk bd w st (.drop i) h (fun _ _ _ e => by cases e)
-      | call i c r =>
-        rcases hk i c r List.mem_cons_self with ⟨h1, _⟩ | ⟨h1, h2, k, h3, h4⟩
-        · exact rel_step mk rk bd w st _ h (fun i' c' r' e => by cases e; exact h1)
-        · exact rel_step_bad mk rk bd w st i c r k h hgood h1 h2 h3 h4
+      | drop i => exact rel_step mk rk bd w st (.drop i) h (fun _ _ _ _ e => by cases e)
+      | call i c r sr =>
+        obtain ⟨hag, hsr⟩ := hk i c r sr List.mem_cons_self
+        rcases hag with ⟨h1, _⟩ | ⟨h1, h2, k, h3, h4⟩
+        · exact rel_step mk rk bd w st _ h (fun i' c' r' sr' e => by cases e; exact ⟨h1, hsr⟩)
+        · exact rel_step_bad mk rk bd w st i c r sr k h hgood h1 h2 h3 h4
     have hg' : GoodInv (observe mk bd st op).1 := by
       apply good_step mk bd st op _ hgood
-      intro i c r e k b hmk hb
+      intro i c r sr e k b hmk hb
       subst e
-      rcases hk i c r List.mem_cons_self with ⟨_, h2⟩ | ⟨_, h2, _⟩
+      rcases (hk i c r sr List.mem_cons_self).1 with ⟨_, h2⟩ | ⟨_, h2, _⟩
       · exact h2 k b hmk hb
       · rw [h2] at hb; contradiction
     obtain ⟨w', h1, h2⟩ := hstep
     simp only [run, watchRun, h1]
-    exact ih _ _ h2 hg' (fun i c r ho => hk i c r (List.mem_cons_of_mem _ ho))
+    exact ih _ _ h2 hg' (fun i c r sr ho => hk i c r sr (List.mem_cons_of_mem _ ho))
 
 end PerInst
 
 theorem perInst_agree (s : Sig) (c : Call) (h : perInstCallOK s c = true) :
-    PerInst.Agree (perInstKey s) (perInstRefKey s) (perInstBind s) c := by
+    Agree (perInstKey s) (perInstRefKey s) (perInstBind s) c := by
   cases hb : perInstBind s c with
   | some b =>
     left
@@ -862,6 +870,113 @@ theorem perInst_agree (s : Sig) (c : Call) (h : perInstCallOK s c = true) :
       · have h2' : perInstKey s c = some k := h2
         right
         exact ⟨by simp [perInstRefKey, hb], hb, k, h2', h3⟩
+
+/-! ## alru_cache with the default key: calls with an unexpected keyword (the same argument as for acached_per_instance) -/
+
+namespace Alru
+
+/-- no stored key carries a leftover keyword: stored keys come from calls Python could bind -/
+def GoodInv (st : St) : Prop := ∀ p ∈ st.cache.items, hasPair p.1 = false
+
+theorem good_init (cap : Nat) : GoodInv (init cap) := by intro p hp; simp [init] at hp
+
+theorem good_step (mk : Call → Option Key) (bd : Call → Option (List Nat)) (st : St) (op : Op)
+    (hg : ∀ k b, mk op.c = some k → bd op.c = some b → hasPair k = false) (h : GoodInv st) :
+    GoodInv (step mk bd st op).1 := by
+  cases hmk : mk op.c with
+  | none => rw [step_key_error hmk]; exact h
+  | some k =>
+    cases hl : st.cache.items.lookup k with
+    | some v =>
+      rw [step_hit hmk hl]
+      intro p hp
+      simp only [List.mem_append, List.mem_singleton] at hp
+      rcases hp with hp | hp
+      · exact h p (List.mem_filter.mp hp).1
+      · subst hp; exact h _ (lookup_some_mem hl)
+    | none =>
+      cases hb : bd op.c with
+      | none => rw [step_bind_error hmk hl hb]; exact h
+      | some b =>
+        cases hra : op.raises with
+        | true => rw [step_raise hmk hl hb hra]; exact h
+        | false =>
+          rw [step_store hmk hl hb hra]
+          intro p hp
+          simp only [LRU.setItem, hl, Option.isSome_none, Bool.false_eq_true, if_false] at hp
+          have key : p ∈ st.cache.items ∨ p = (k, ⟨st.runs + 1, b⟩) := by
+            split at hp
+            · simp only [List.mem_append, List.mem_singleton] at hp
+              rcases hp with hp | hp
+              · exact Or.inl (List.mem_of_mem_drop hp)
+              · exact Or.inr hp
+            · simp only [List.mem_append, List.mem_singleton] at hp
+              exact hp
+          rcases key with hp | hp
+          · exact h p hp
+          · subst hp; exact hg k b hmk hb
+
+/-- a call Python cannot bind whose key carries a pair misses the cache and raises TypeError -/
+theorem rel_step_bad (mk rk : Call → Option Key) (bd : Call → Option (List Nat)) (cap : Nat) (w : Watch) (st : St)
+    (op : Op) (k : Key) (h : Rel cap w st) (hgood : GoodInv st)
+    (hrk : rk op.c = none) (hbd : bd op.c = none) (hmk : mk op.c = some k) (hp : hasPair k = true) :
+    ∃ w', watchStep rk bd cap w op (observe mk bd st op).2 = .ok w' ∧ Rel cap w' (observe mk bd st op).1 := by
+  have hl : st.cache.items.lookup k = none := by
+    cases hl : st.cache.items.lookup k with
+    | none => rfl
+    | some v => have := hgood _ (lookup_some_mem hl); rw [hp] at this; contradiction
+  refine ⟨w, ?_, ?_⟩
+  · simp [observe, step_bind_error hmk hl hbd, watchStep, hrk, malformed, h.runs]
+  · simpa [observe, step_bind_error hmk hl hbd] using h
+
+theorem watchRun_ok' (mk rk : Call → Option Key) (bd : Call → Option (List Nat)) (cap : Nat) (hcap : 1 ≤ cap)
+    (ops : List Op) (w : Watch) (st : St) (h : Rel cap w st) (hgood : GoodInv st)
+    (hk : ∀ op ∈ ops, Agree mk rk bd op.c) :
+    ∃ w', watchRun rk bd cap w ops (run mk bd st ops) = .ok w' := by
+  induction ops generalizing w st with
+  | nil => exact ⟨w, rfl⟩
+  | cons op ops ih =>
+    have hstep : ∃ w', watchStep rk bd cap w op (observe mk bd st op).2 = .ok w' ∧ Rel cap w' (observe mk bd st op).1 := by
+      rcases hk op List.mem_cons_self with ⟨h1, _⟩ | ⟨h1, h2, k, h3, h4⟩
+      · exact rel_step mk rk bd cap hcap w st op h h1
+      · exact rel_step_bad mk rk bd cap w st op k h hgood h1 h2 h3 h4
+    have hg' : GoodInv (observe mk bd st op).1 := by
+      apply good_step mk bd st op _ hgood
+      intro k b hmk hb
+      rcases hk op List.mem_cons_self with ⟨_, h2⟩ | ⟨_, h2, _⟩
+      · exact h2 k b hmk hb
+      · rw [h2] at hb; contradiction
+    obtain ⟨w', h1, h2⟩ := hstep
+    simp only [run, watchRun, h1]
+    exact ih _ _ h2 hg' (fun o ho => hk o (List.mem_cons_of_mem _ ho))
+
+end Alru
+
+theorem alru_agree (s : Sig) (c : Call) (h : alruCallOK s c = true) :
+    Agree (alruKey .default s) (alruRefKey .default s) (alruBind s) c := by
+  cases hb : alruBind s c with
+  | some b =>
+    left
+    have hk : alruKey .default s c = some (b.map .val) := getArgsTuple_of_bind _ _ _ c b hb
+    refine ⟨by simp [alruRefKey, hb, hk], ?_⟩
+    intro k b' hk' _
+    rw [hk] at hk'
+    injection hk' with hk'
+    subst hk'
+    exact hasPair_map_val b
+  | none =>
+    simp only [alruCallOK, hb, Option.isSome_none, Bool.false_or, Bool.or_eq_true, Option.isNone_iff_eq_none] at h
+    rcases h with h | h
+    · left
+      exact ⟨by simp [alruRefKey, hb, h], by intro k b hk; rw [h] at hk; contradiction⟩
+    · obtain ⟨_, h2⟩ := unexpected_keyword s.args s.kwonly (kwargsDefaults s) c h
+      rcases h2 with h2 | ⟨k, h2, h3⟩
+      · have h2' : alruKey .default s c = none := h2
+        left
+        exact ⟨by simp [alruRefKey, hb, h2'], by intro k b hk; rw [h2'] at hk; contradiction⟩
+      · have h2' : alruKey .default s c = some k := h2
+        right
+        exact ⟨by simp [alruRefKey, hb], hb, k, h2', h3⟩
 
 /-! ## alazy_constant -/
 
